@@ -34,4 +34,44 @@ mod verif_oracle_poplar1 {
             }
         }
     }
+
+    // Executable form of the is_agg_param_valid contract (unit poplar1_aggparam): every history of up to three parameters drawn
+    // from a pool over 3-bit inputs (levels 0..2, several candidate sets) against every current parameter of the pool.
+    #[test]
+    fn oracle_agg_param_rule() {
+        let inp = |bits: &[bool]| IdpfInput::from_bools(bits);
+        let pool: Vec<Poplar1AggregationParam> = vec![
+            Poplar1AggregationParam::try_from_prefixes(vec![inp(&[false]), inp(&[true])]).unwrap(),
+            Poplar1AggregationParam::try_from_prefixes(vec![inp(&[true])]).unwrap(),
+            Poplar1AggregationParam::try_from_prefixes(vec![inp(&[false, true]), inp(&[true, false])]).unwrap(),
+            Poplar1AggregationParam::try_from_prefixes(vec![inp(&[true, true])]).unwrap(),
+            Poplar1AggregationParam::try_from_prefixes(vec![inp(&[false, true, true]), inp(&[true, false, false])]).unwrap(),
+            Poplar1AggregationParam::try_from_prefixes(vec![inp(&[true, true, false])]).unwrap(),
+        ];
+        let expect = |cur: &Poplar1AggregationParam, prev: &[Poplar1AggregationParam]| -> bool {
+            match prev.last() {
+                None => true,
+                Some(last) => cur.level > last.level && cur.prefixes.iter().all(|p| last.prefixes.contains(&p.prefix(last.level as usize))),
+            }
+        };
+        let n = pool.len();
+        for hl in 0..=3usize {
+            let mut idx = vec![0usize; hl];
+            loop {
+                let prev: Vec<Poplar1AggregationParam> = idx.iter().map(|&i| pool[i].clone()).collect();
+                for cur in &pool {
+                    let got = <Poplar1<XofTurboShake128, 32> as Aggregator<32, 16>>::is_agg_param_valid(cur, &prev);
+                    let want = expect(cur, &prev);
+                    if got != want {
+                        println!("COUNTEREXAMPLE Poplar1::is_agg_param_valid: history (oldest first) levels {:?} with candidate counts {:?}, current level {} with {} prefixes: returned {} but the rule (strictly deeper than the MOST RECENT parameter and every prefix extends one of its candidates) gives {}",
+                            prev.iter().map(|p| p.level).collect::<Vec<_>>(), prev.iter().map(|p| p.prefixes.len()).collect::<Vec<_>>(), cur.level, cur.prefixes.len(), got, want);
+                        return;
+                    }
+                }
+                let mut k = 0;
+                while k < hl { idx[k] += 1; if idx[k] < n { break; } idx[k] = 0; k += 1; }
+                if k == hl { break; }
+            }
+        }
+    }
 }
